@@ -58,11 +58,15 @@ seed2 = {
 seed3 = {
   "m": module("m", "m", includes=["s1"],
     gs=[grouping("base", leaf("bl"), choice("how", case("x", leaf("lx")))),
-        grouping("endpoint", leaf("port", dflt="80"), leaf("host"))],
+        grouping("endpoint", leaf("port", dflt="80"), leaf("host")),
+        grouping("ga", leaf("gl"), st("action", "ping", c=[leaf("state"), leaf("since")]),
+                 st("action", "reset", c=[leaf("code")], desc="with-input"))],
     body=[
         cont("c", uses("base", aug=[dict(path=["how"], c=[case("y", uses("endpoint"))])]), leaf("after")),
         cont("box", uses("inner"), leaf("bx"), gs=[grouping("inner", leaf("il", desc="inner one"))]),
         cont("top", leaf("t1"), leaf("t2")),
+        cont("svc1", uses("ga")),
+        cont("svc2", uses("ga"), leaf("own2")),
     ]),
   "s1": module("s1", "m", sub=True, belongs="m", includes=["s2"],
     body=[cont("from-s1", leaf("a1"))]),
@@ -85,6 +89,8 @@ tseed1 = {"m": module("m", "m",
         leaf("s", ty=ty("string"), dflt="d", units="us"),
         cont("inner", leaf("li", ty=ty("lt")), leaf("n", ty=ty("int32", rng="1..9"), dflt="4"),
              tds=[typedef("lt", ty("uint8", rng="1..200"), dflt="3")]),
+        # a sibling scope with its own typedef of the same name
+        cont("inner2", leaf("li2", ty=ty("lt")), tds=[typedef("lt", ty("string"), dflt="hi", units="chars")]),
     ])}
 
 tseed2 = {
